@@ -17,8 +17,8 @@ var c06Alpha = []string{"put:a", "put:b", "put:c", "del:a", "del:b", "putL:c", "
 
 func init() {
 	register(&Check{
-		ID:     "C06",
-		Level:  "model_checking",
+		ID:    "C06",
+		Level: "model_checking",
 		Worker: func(task []byte) []byte {
 			var probe struct {
 				Cmp string `json:"pick_cmp"`
